@@ -125,7 +125,7 @@ def _reference_wf(g, Pt, nv, Es):
 
 
 @obligation("native/reference_and_optimality", kind="bounded", timeout=900,
-            desc="binary64: random gains spanning up to 12 decades, N<=60, equal gains, Es != 1: agrees with an independent "
+            desc="binary64: random gains spanning up to 12 decades, N<=60, equal gains (also with a water level up to 1e17 times the budget), Es != 1: agrees with an independent "
                  "bisection water-filling (rel 1e-9), KKT structure with the returned mu, permutation equivariance, and no "
                  "feasible perturbation improves sum log2(1+g Es p/noise)")
 def ob_native():
@@ -141,6 +141,15 @@ def ob_native():
             if i % 7 == 0 and N > 2:
                 g[1] = g[0]
                 g[-1] = g[0]
+            if i % 11 == 5:
+                # the water level dwarfs the budget (noise/(Es g) up to 1e17 times the total power) while several channels stay in use:
+                # the budget must still be met to 1e-9 relative - it is the quantity the result is computed FROM, not a small
+                # difference of large numbers
+                t = 10 ** r.uniform(-12, -8)
+                g = np.full(N, t)
+                yield {"g": g.tolist(), "Pt": float(10 ** r.uniform(-1, 1)), "noise": float(10 ** r.uniform(2, 5)),
+                       "Es": float(r.choice([1.0, 0.5, 2.0])), "seed": int(r.randint(1 << 30)), "extreme": True}
+                continue
             yield {"g": g.tolist(), "Pt": float(10 ** r.uniform(-3, 3)), "noise": float(10 ** r.uniform(-3, 1)),
                    "Es": float(r.choice([1.0, 0.5, 2.0, 10 ** r.uniform(-2, 2)])), "seed": int(r.randint(1 << 30))}
 
@@ -161,6 +170,11 @@ def ob_native():
         want = np.maximum(0, mu - nv / (Es * g))
         if (not (np.abs(P - want).max() <= tol + 1e-9 * abs(mu))):
             return {"P": P.tolist(), "max(0,mu-noise/(Es g))": want.tolist(), "mu": float(mu)}
+        if case.get("extreme"):
+            # equal gains: by symmetry the optimum is Pt/N each (the bisection reference cannot resolve a water level of 1e15)
+            if (not (np.abs(P - Pt / len(g)).max() <= 1e-9 * Pt)):
+                return {"P": P.tolist(), "equal gains, expected each": Pt / len(g)}
+            return None
         Pr, mur = _reference_wf(g, Pt, nv, Es)
         if (not (np.abs(P - Pr).max() <= 1e-7 * max(Pt, 1.0))):
             return {"P": P.tolist(), "reference": Pr.tolist()}
